@@ -60,6 +60,8 @@ def leaves_single(x=X):
         ("cmp", "ge", ("c", x, "get_p", ()), ("c", A(x, "ref"), "get_q", ())),
         ("cmp", "eq", ("i", A(x, "t"), 0), p), ("cmp", "ne", ("i", A(x, "s"), 0), L("y")),
         ("pf", "p_eq", (x, L(2))), ("pc", "PEq", (x, L(2))),
+        # predicates over two expressions of the same variable: both arguments must come from one binding
+        ("pf", "val_eq", (p, q)), ("pc", "PLt", (x, A(x, "ref"))),
     ]
     return out
 
